@@ -732,7 +732,9 @@ def rule_o7(ctx, facts):
 
     def named_source(b, l):
         seen = set()
-        while l is not None and l not in seen and not b.local_name(l):
+        fil = b.raw.get("first_inlined_local")
+        # (the parameter of an inlined helper has a name of its own but is only another name for what the caller passed)
+        while l is not None and l not in seen and (not b.local_name(l) or (fil is not None and l >= fil)):
             seen.add(l)
             ds = [d for d in b.defs.get(l, []) if d[1] in ("assign", "call", "arg")]
             if len(ds) != 1 or ds[0][1] != "assign" or "use" not in ds[0][2]["rv"]:
@@ -882,7 +884,14 @@ def rule_o8(ctx, facts):
                             ok_exit = True      # panics / unreachable!()
                         if not ok_exit:
                             bad = (u, v)
-                if bad:
+                # ... and no iteration goes round without retiring the node the cursor stood on
+                skipped = not bad and b.term_point(tail) in pre and any(v == head for v, _ in b.term_succ(tail, False))
+                if skipped:
+                    ctx.inst("O8", b, "retire loop over `%s`" % (b.local_name(cur) or "_%d" % cur), c.span, False,
+                             "an iteration of the loop that retires the nodes of a superseded list can advance the cursor without retiring the node "
+                             "it stood on (the retirement at %s is conditional): unless that node is retired afterwards on every path, it is "
+                             "unreachable and never freed" % c.span)
+                elif bad:
                     ctx.inst("O8", b, "retire loop over `%s`" % (b.local_name(cur) or "_%d" % cur), b.term(bad[0])["span"], False,
                              "the loop that retires the nodes of a superseded list can be left at %s while the cursor still stands on a node that has "
                              "not been retired (the exit is not a test of the cursor itself): that node is unreachable and never freed" % b.term(bad[0])["span"])
